@@ -22,6 +22,8 @@ PHASES = ['request-line', 'after-headers', 'mid-body', 'after-response']
 
 
 def canon_request(entry):
+    if 'url' in entry:
+        return entry['url']
     host = entry['host'].lower()
     if host.endswith(':80'):
         host = host[:-3]
@@ -95,12 +97,54 @@ def read_rows(db):
     return crawl.read_table(db)
 
 
+class _FtpLog(object):
+    '''The FTP server's command log in the shape the HTTP request log has: one entry per served LIST / RETR.'''
+    def __init__(self, server):
+        self.server = server
+
+    def snapshot(self):
+        out = []
+        for e in self.server.snapshot():
+            if e['cmd'] in ('LIST', 'MLSD', 'RETR') and e.get('served'):
+                path = e['path'] + ('/' if e['cmd'] != 'RETR' and not e['path'].endswith('/') else '')
+                out.append({'url': 'ftp://f.test' + path, 'seq': len(out), 'cmd': e['cmd']})
+        return out
+
+
+class _FtpSrv(object):
+    def __init__(self, server):
+        self.server = server
+        self.log = _FtpLog(server)
+        self.on_request = None
+
+    def stop(self):
+        self.server.stop()
+
+
+class _FtpSite(object):
+    host = 'f.test'
+    inputs = ()
+
+    def __init__(self, tree):
+        self.tree = tree
+        self.start = 'ftp://f.test/pub/'
+        # (for the classifier of missing requests: page -> links)
+        self.pages = {}
+
+
 def run_case(case, part):
     from harness import servers
-    site = build_site(case)
-    addrs, port = servers.allocate_addresses(1)
-    srv = servers.Server(sitegen.make_handler(site), addrs, port, delay_seed=case.get('delay_seed', 0),
-                         max_delay=0.003 if case['concurrent'] > 1 else 0).start()
+    if case.get('ftp'):
+        from harness import ftpserver
+        from checks import c02c_ftp
+        site = _FtpSite(c02c_ftp.gen_tree(random.Random(case['site_seed'])))
+        addrs, port = servers.allocate_addresses(1, port=21)
+        srv = _FtpSrv(ftpserver.FTPServer(site.tree, addrs[0], 21).start())
+    else:
+        site = build_site(case)
+        addrs, port = servers.allocate_addresses(1)
+        srv = servers.Server(sitegen.make_handler(site), addrs, port, delay_seed=case.get('delay_seed', 0),
+                             max_delay=0.003 if case['concurrent'] > 1 else 0).start()
     tmp = tempfile.mkdtemp(prefix='vc03')
     kill = case.get('kill')
     replay = case
@@ -223,6 +267,11 @@ def run_case(case, part):
             # classify: children of a page that was already 'done' in the post-kill copy?
             parents_done = []
             for m in missing:
+                if case.get('ftp'):
+                    parent_dir = m.rstrip('/').rsplit('/', 1)[0] + '/'
+                    if parent_dir in done_before:
+                        parents_done.append(parent_dir)
+                    continue
                 for u, p in site.pages.items():
                     if any(l['target'] == m for l in p.links) and u in done_before:
                         parents_done.append(u)
@@ -287,6 +336,9 @@ def main():
         workloads.append(dict(base, sitemaps=True, variant='sitemaps'))
         if check.thorough:
             workloads.append(dict(workloads[1], tries=1, db_uri=True, variant='tries1+db-uri'))
+        # a recursive FTP crawl of a directory tree (entries of a listing are the children of the directory's URL)
+        workloads.append({'ftp': True, 'site_seed': rng.randrange(1 << 30) if (check.thorough or check.seed) else 4242, 'n_pages': 0,
+                          'concurrent': 1, 'delay_seed': 0, 'variant': 'ftp'})
         # a crawl with more start URLs than fit in one batch of the input task (1000): kills while the start URLs are
         # being stored
         for n_in in ((1001, 2500) if check.thorough else (1001,)):
@@ -326,6 +378,9 @@ def main():
                     # the link conversion phase: the last statements and commits of the run
                     points += [{'kind': 'before_stmt', 'at': k} for k in range(max(1, S - 24), S + 1)]
                     points += [{'kind': 'after_commit', 'at': k} for k in range(max(1, C - 12), C + 1)]
+                elif w['variant'] == 'ftp':
+                    points += [{'kind': 'before_stmt', 'at': k} for k in range(1, S + 1)]
+                    points += [{'kind': 'after_commit', 'at': k} for k in range(1, C + 1)]
                 elif w['variant'] == 'sitemaps':
                     # the extra URLs are queued while the first page is processed: the first statements and commits
                     ddl = c['counts'].get('ddl', 0)
